@@ -29,6 +29,12 @@ class RegFile(object):
         import copy
         return copy.deepcopy(self)
 
+    def reset(self):
+        """the datastore's reset(): every populated cell back to its type's zero value; the populated addresses do not change"""
+        for k, t in self.t.items():
+            for a in t:
+                t[a] = False if k in 'cd' else 0
+
     def dump(self):
         return {k: dict(v) for k, v in self.t.items()}
 
